@@ -26,6 +26,7 @@ ASSUMPTIONS = [
     "property discovery may return any combination of the 11 booleans (stub for find_file_properties / check_if_legacy_format / check_if_model_archive_format)",
     "documented table = README 'PyTorch polyglots' list + module docstring, with the precedence of the list in identify_pytorch_file_format; the 'model.json only' row is not asserted (the code's own corruption note contradicts the README there)",
     "hygiene lemma: the format identifier is a stub returning one of 7 answers per input (incl. 'no format'); one I/O call (shutil.copy / append / zip open) may raise OSError at a chosen index; the cleanup primitives os.remove / shutil.rmtree are not failed",
+    "a reported success (create_polyglot returns True) must leave a non-empty output file, under the requested name when one is given",
     "real archive bytes, torch's acceptance and identification of produced polyglots are outside (C boundary)",
 ]
 
@@ -159,7 +160,7 @@ def _hygiene(a1, a2, fault, named):
         os.chdir(work)
         try:
             try:
-                P.create_polyglot(f1, f2, "out.bin" if named else None, print_results=False)
+                made = P.create_polyglot(f1, f2, "out.bin" if named else None, print_results=False)
                 outcome = "ok"
             except Exception as e:
                 outcome = type(e).__name__
@@ -171,6 +172,11 @@ def _hygiene(a1, a2, fault, named):
         stray = [n for n in left if n.startswith("temp")]
         unchanged = all(hashlib.sha256(open(p, "rb").read()).hexdigest() == h for p, h in before.items())
         inputs_dir_clean = sorted(os.listdir(inputs)) == ["first.pt", "second.pt"]
+        if outcome == "ok" and made is True:
+            # success was reported: the polyglot exists, under the requested name if one was given
+            produced = [n for n in left if not n.startswith("temp") and os.path.getsize(os.path.join(work, n)) > 0]
+            if not produced or (named and "out.bin" not in produced):
+                return False
         return not stray and unchanged and inputs_dir_clean
     finally:
         shutil.rmtree(work, ignore_errors=True)
